@@ -27,7 +27,7 @@ def canon6(t):
 
 def run(ctx):
     rng = ctx.rng
-    n = 4000 if ctx.tier == 'thorough' else 260
+    n = 4000 if ctx.tier == 'thorough' else 260 * ctx.scale
     lines, meta = [], []
     if ctx.replay:
         lines, meta, n = [ctx.replay['case']['line']], [None], 0
@@ -120,7 +120,7 @@ def server_part(ctx):
     from chosen loopback source addresses (with_connection_condition(verify_connection) and the per-route checks as wired
     by the real server)."""
     rng = ctx.rng
-    n = 400 if ctx.tier == 'thorough' else 24
+    n = 400 if ctx.tier == 'thorough' else 24 * ctx.scale
     lines, meta = [], []
     if ctx.replay:
         lines, meta, n = [ctx.replay['case']['line']], [None], 0
